@@ -14,6 +14,7 @@ import MatidGen.AnalyzerRule
 import MatidGen.SbcRule
 import MatidGen.ProtoRule
 import MatidGen.RegionRule
+import MatidGen.AssembleRule
 
 open Matid Matid.Parse
 
@@ -254,6 +255,29 @@ def opRegion (args : List String) : String :=
         (if icm.isEmpty then "-" else "|".intercalate icm) ++ " " ++ (if edges.isEmpty then "-" else "|".intercalate edges) ++ " " ++
         showList toString (basisIndices st.units) ++ " " ++ String.join ((connectedDirections st.edges).map showBool)
     | _, _, _, _, _, _, _, _ => "bad-op"
+  | _ => "bad-op"
+
+/-- `assemble <two 0/1> <seedGroup> <cells> <groups> <nums>` : basis assembly of _find_proto_cell_3d / _2d.
+cells: `|`-separated `nodes;positions` (nodes = flat integers i,f1,f2,f3,…; positions flat rationals); groups: `|`-separated flat nodes -/
+def opAssemble (args : List String) : String :=
+  open Matid.Assemble in
+  let pNodes (s : String) : Option (List Node) := do
+    let l ← parseList? String.toInt? s
+    if l.length % 4 != 0 then none else
+    pure ((List.range (l.length / 4)).map fun i => ((l.getD (4 * i) 0).toNat, (l.getD (4 * i + 1) 0, l.getD (4 * i + 2) 0, l.getD (4 * i + 3) 0)))
+  let pCell (s : String) : Option Inside :=
+    match s.splitOn ";" with
+    | [n, p] => do pure { nodes := ← pNodes n, pos := ← parseV3s? p }
+    | _ => none
+  match args with
+  | [twoS, sgS, cellsS, groupsS, numsS] =>
+    match parseBool? twoS, sgS.toNat?, (if cellsS == "-" then some [] else (cellsS.splitOn "|").mapM pCell),
+          (if groupsS == "-" then some [] else (groupsS.splitOn "|").mapM pNodes), parseList? String.toNat? numsS with
+    | some two, some sg, some cells, some groups, some nums =>
+      let o := assemble MatidGen.AssembleRule.rule two cells groups nums sg
+      (if o.atoms.isEmpty then "-" else "|".intercalate (o.atoms.map fun a => toString a.1 ++ ":" ++ showV a.2)) ++ " " ++
+        (match o.seedIndex with | some i => toString i | none => "None")
+    | _, _, _, _, _ => "bad-op"
   | _ => "bad-op"
 
 /-- `extend <cell> <pbc> <cutoff> <positions>` -/
@@ -618,6 +642,7 @@ def step (line : String) : String :=
   | "extend" :: args => opExtend args
   | "adaptcell" :: args => opAdaptCell args
   | "region" :: args => opRegion args
+  | "assemble" :: args => opAssemble args
   | "withinbasis" :: args => opWithinBasis args
   | "query" :: args => opQuery args
   | "disp" :: args => opDisp args
